@@ -220,6 +220,19 @@ def evaluate(kind, obj, x, k):
             out = obj(xin)
         elif k == 'pointwise':
             out = obj.compute_pointwise_ll(xin)
+            if isinstance(obj, chi.LogLikelihood) and len(xin):
+                # the same evaluation through posterior samples whose variables carry OTHER names (param_map): an evaluation
+                # too -- same values, and the object answers to its own names afterwards
+                import xarray as xr
+                names0 = list(obj.get_parameter_names())
+                ds = xr.Dataset({'v%d' % q: (('chain', 'draw'), np.array([[float(xin[q])]])) for q in range(len(xin))},
+                                coords={'chain': [0], 'draw': [0]})
+                pw = chi.compute_pointwise_loglikelihood(obj, ds, param_map={n_: 'v%d' % q for q, n_ in enumerate(names0)})
+                if not np.allclose(np.asarray(pw, dtype=float).flatten(), np.asarray(out, dtype=float).flatten(), rtol=1e-12, atol=0):
+                    raise AssertionError('pointwise values over posterior samples differ from compute_pointwise_ll')
+                if list(obj.get_parameter_names()) != names0:
+                    raise AssertionError('parameter names changed by a pointwise evaluation over posterior samples: %r -> %r'
+                                         % (names0, list(obj.get_parameter_names())))
         else:
             s, g = obj.evaluateS1(xin)
             if isinstance(g, np.ndarray):
